@@ -10,7 +10,7 @@ package message
 
 //@ property C04 roots readLPBytes, (*header).decode, (*PubackMessage).Decode, (*ConnackMessage).Decode, (*DisconnectMessage).Decode, (*SubackMessage).Decode, (*PublishMessage).Decode, (*SubscribeMessage).Decode, (*UnsubscribeMessage).Decode, (*ConnectMessage).Decode
 //@ property C05 roots readLPBytes, (*header).decode, (*PubackMessage).Decode, (*ConnackMessage).Decode, (*DisconnectMessage).Decode, (*SubackMessage).Decode, (*PublishMessage).Decode, (*SubscribeMessage).Decode, (*UnsubscribeMessage).Decode, (*ConnectMessage).Decode
-//@ property C03 roots (*header).encode, (*header).msglen, writeLPBytes, (*header).SetRemainingLength, (*header).PacketID, (*header).SetPacketID, (*header).SetType, (*PubackMessage).Len, (*PubackMessage).Encode, (*PubackMessage).Decode, (*PubackMessage).msglen, (*ConnackMessage).Len, (*ConnackMessage).Encode, (*ConnackMessage).Decode, (*DisconnectMessage).Decode, (*SubackMessage).Decode, (*DisconnectMessage).Encode, (*header).Len, (*SubackMessage).Len, (*SubackMessage).Encode, (*SubackMessage).Decode, (*SubackMessage).AddReturnCodes, (*SubackMessage).AddReturnCode, (*PublishMessage).Len, (*PublishMessage).Encode, (*PublishMessage).Decode, (*PublishMessage).QoS, (*PublishMessage).SetQoS, (*PublishMessage).Retain, (*PublishMessage).SetRetain, (*PublishMessage).Dup, (*PublishMessage).SetDup, (*PublishMessage).SetTopic, (*PublishMessage).SetPayload, (*PublishMessage).Topic, (*PublishMessage).Payload, (*PublishMessage).msglen, (*SubscribeMessage).msglen, (*SubscribeMessage).Len, (*SubscribeMessage).Encode, (*SubscribeMessage).Decode, (*UnsubscribeMessage).msglen, (*UnsubscribeMessage).Len, (*UnsubscribeMessage).Encode, (*UnsubscribeMessage).Decode, (*ConnectMessage).Decode, (*ConnectMessage).Len, (*ConnectMessage).Encode, (*ConnectMessage).msglen, (*ConnectMessage).encodeMessage
+//@ property C03 roots (*header).encode, (*header).msglen, writeLPBytes, (*header).SetRemainingLength, (*header).PacketID, (*header).SetPacketID, (*header).SetType, (*PubackMessage).Len, (*PubackMessage).Encode, (*PubackMessage).Decode, (*PubackMessage).msglen, (*ConnackMessage).Len, (*ConnackMessage).Encode, (*ConnackMessage).Decode, (*DisconnectMessage).Decode, (*SubackMessage).Decode, (*DisconnectMessage).Encode, (*header).Len, (*SubackMessage).Len, (*SubackMessage).Encode, (*SubackMessage).Decode, (*SubackMessage).AddReturnCodes, (*SubackMessage).AddReturnCode, (*PublishMessage).Len, (*PublishMessage).Encode, (*PublishMessage).Decode, (*PublishMessage).QoS, (*PublishMessage).SetQoS, (*PublishMessage).Retain, (*PublishMessage).SetRetain, (*PublishMessage).Dup, (*PublishMessage).SetDup, (*PublishMessage).SetTopic, (*PublishMessage).SetPayload, (*PublishMessage).Topic, (*PublishMessage).Payload, (*PublishMessage).msglen, (*SubscribeMessage).msglen, (*SubscribeMessage).Len, (*SubscribeMessage).Encode, (*SubscribeMessage).Decode, (*UnsubscribeMessage).msglen, (*UnsubscribeMessage).Len, (*UnsubscribeMessage).Encode, (*UnsubscribeMessage).Decode, (*ConnectMessage).Decode, (*ConnectMessage).Len, (*ConnectMessage).Encode, (*ConnectMessage).msglen, (*ConnectMessage).encodeMessage, (*ConnectMessage).SetWillFlag, (*ConnectMessage).SetCleanSession, (*ConnectMessage).SetWillQos, (*ConnectMessage).SetWillRetain, (*ConnectMessage).SetUsernameFlag, (*ConnectMessage).SetPasswordFlag, (*ConnectMessage).SetWillTopic, (*ConnectMessage).SetWillMessage, (*ConnectMessage).SetUsername, (*ConnectMessage).SetPassword, (*ConnectMessage).SetKeepAlive
 
 // ---------------------------------------------------------------- spec functions
 
@@ -365,6 +365,7 @@ func vspecPubackLen(m *PubackMessage) int {
 //@   ensures result == 2
 
 //@ func (*PubackMessage).Len
+//@   ensures[iface] 0 <= result && m.dirty == old(m.dirty)
 //@   ensures[C03:len] result == old(vspecPubackLen(m))
 //@   ensures !old(m.dirty) ==> m.remlen == old(m.remlen) && !m.dirty
 //@   ensures old(m.dirty) ==> m.remlen == 2 && m.dirty
@@ -383,6 +384,7 @@ func vspecPubackLen(m *PubackMessage) int {
 
 //@ func (*PubackMessage).Encode
 //@   results n, err
+//@   ensures[count] 0 <= n && n <= len(dst)
 //@   requires len(m.mtypeflags) == 1
 //@   requires len(m.packetID) == 0 || len(m.packetID) == 2
 //@   requires arr(dst) != arr(m.packetID) || len(m.packetID) != 2
@@ -424,6 +426,7 @@ func vspecB2I(b bool) byte {
 //@   ensures result == 2
 
 //@ func (*ConnackMessage).Len
+//@   ensures[iface] 0 <= result && m.dirty == old(m.dirty)
 //@   ensures[C03:len] result == old(vspecConnackLen(m))
 //@   ensures !old(m.dirty) ==> m.remlen == old(m.remlen) && !m.dirty
 //@   ensures old(m.dirty) ==> m.remlen == 2 && m.dirty
@@ -450,6 +453,7 @@ func vspecB2I(b bool) byte {
 
 //@ func (*ConnackMessage).Encode
 //@   results n, err
+//@   ensures[count] 0 <= n && n <= len(dst)
 //@   requires len(m.mtypeflags) == 1
 //@   ensures[C03:len] err == nil ==> n == old(vspecConnackLen(m)) && n <= len(dst)
 //@   ensures[C03:clean] err == nil && !old(m.dirty) ==> eqold(dst[:n], m.dbuf)
@@ -476,6 +480,7 @@ func vspecB2I(b bool) byte {
 
 //@ func (*DisconnectMessage).Encode
 //@   results n, err
+//@   ensures[count] 0 <= n && n <= len(dst)
 //@   requires len(m.mtypeflags) == 1
 //@   requires m.remlen == 0 && m.dirty
 //@   ensures[C03:len] err == nil ==> n == 2 && n <= len(dst)
@@ -500,6 +505,7 @@ func vspecRetCodeOK(c byte) bool { return c == 0 || c == 1 || c == 2 || c == 128
 //@   ensures result == 2+len(m.returnCodes)
 
 //@ func (*SubackMessage).Len
+//@   ensures[iface] 0 <= result && m.dirty == old(m.dirty)
 //@   requires len(m.returnCodes) <= 1000000000
 //@   ensures[C03:len] 2+len(m.returnCodes) <= 268435455 ==> result == old(vspecSubackLen(m))
 //@   ensures !old(m.dirty) ==> m.remlen == old(m.remlen) && !m.dirty
@@ -523,6 +529,7 @@ func vspecRetCodeOK(c byte) bool { return c == 0 || c == 1 || c == 2 || c == 128
 
 //@ func (*SubackMessage).Encode
 //@   results n, err
+//@   ensures[count] 0 <= n && n <= len(dst)
 //@   requires len(m.mtypeflags) == 1
 //@   requires len(m.packetID) == 0 || len(m.packetID) == 2
 //@   requires arr(dst) != arr(m.packetID) || len(m.packetID) != 2
@@ -630,6 +637,7 @@ func vspecPublishOK(src []byte) bool {
 //@   ensures result == vspecPublishBody(len(m.topic), len(m.payload), vspecQoSOf(m.mtypeflags[0]))
 
 //@ func (*PublishMessage).Len
+//@   ensures[iface] 0 <= result && m.dirty == old(m.dirty)
 //@   requires len(m.mtypeflags) >= 1
 //@   requires len(m.topic) <= 65535 && len(m.payload) <= 1000000000
 //@   ensures[C03:len] vspecPublishBody(len(m.topic), len(m.payload), vspecQoSOf(m.mtypeflags[0])) <= 268435455 ==> result == old(vspecPublishLen(m))
@@ -666,6 +674,7 @@ func vspecPublishOK(src []byte) bool {
 
 //@ func (*PublishMessage).Encode
 //@   results n, err
+//@   ensures[count] 0 <= n && n <= len(dst)
 //@   requires len(m.mtypeflags) == 1
 //@   requires len(m.packetID) == 0 || len(m.packetID) == 2
 //@   requires arr(dst) != arr(m.packetID) || len(m.packetID) != 2
@@ -681,6 +690,7 @@ func vspecPublishOK(src []byte) bool {
 //@        && eqbytes(dst[n-len(m.payload):n], m.payload)
 //@        && (vspecQoSOf(m.mtypeflags[0]) != 0 ==> len(m.packetID) == 2 && eqbytes(dst[n-len(m.payload)-2:n-len(m.payload)], m.packetID))
 //@   ensures[C03,C12:pid] err == nil && old(m.dirty) && vspecQoSOf(m.mtypeflags[0]) != 0 ==> vspecPacketID(m.packetID) != 0
+//@   ensures[C03:id-bytes] (old(vspecPacketID(m.packetID)) != 0 || !old(m.dirty)) && old(len(m.packetID)) == 2 ==> sameslice(m.packetID, old(m.packetID)) && unchanged(m.packetID)
 //@   ensures[C03:keepid] old(vspecPacketID(m.packetID)) != 0 ==> vspecPacketID(m.packetID) == old(vspecPacketID(m.packetID))
 //@   ensures[C03:clean-untouched] !old(m.dirty) ==> !m.dirty && m.remlen == old(m.remlen) && unchanged(m.packetID) && sameslice(m.packetID, old(m.packetID)) && (arr(dst) != arr(m.dbuf) ==> unchanged(m.dbuf)) && sameslice(m.dbuf, old(m.dbuf))
 //@   ensures[C03:accept] old(m.dirty) && len(m.topic) > 0 && vspecPublishBody(len(m.topic), len(m.payload), vspecQoSOf(m.mtypeflags[0])) <= 268435455 && len(dst) >= 5+vspecPublishBody(len(m.topic), len(m.payload), vspecQoSOf(m.mtypeflags[0])) && m.mtypeflags[0] >= 16 && m.mtypeflags[0] < 240 ==> err == nil
@@ -702,6 +712,7 @@ func vspecPublishOK(src []byte) bool {
 //@   ensures result == 2+sumlen(m.topics, 0, 3) && 2 <= result && result <= 2+len(m.topics)*65538
 
 //@ func (*SubscribeMessage).Len
+//@   ensures[iface] 0 <= result && m.dirty == old(m.dirty)
 //@   requires len(m.topics) <= 30000 && forall(0, len(m.topics), func(j int) bool { return len(m.topics[j]) <= 65535 })
 //@   ensures[C03:len] !old(m.dirty) ==> result == len(m.dbuf) && m.remlen == old(m.remlen) && !m.dirty
 //@   ensures[C03:len] old(m.dirty) && 2+sumlen(m.topics, 0, 3) <= 268435455 ==> result == 1+vspecVarintLen(2+sumlen(m.topics, 0, 3))+2+sumlen(m.topics, 0, 3) && int(m.remlen) == 2+sumlen(m.topics, 0, 3) && m.dirty
@@ -709,6 +720,7 @@ func vspecPublishOK(src []byte) bool {
 
 //@ func (*SubscribeMessage).Encode
 //@   results n, err
+//@   ensures[count] 0 <= n && n <= len(dst)
 //@   ghostout gh_off, gh_nxt
 //@   requires len(m.mtypeflags) == 1
 //@   requires len(m.packetID) == 0 || len(m.packetID) == 2
@@ -739,6 +751,8 @@ func vspecPublishOK(src []byte) bool {
 //@        && forall(0, len(m.topics), func(j int) bool { return gh_nxt[j] <= n && dst[gh_off[j]+2+len(m.topics[j])] == m.qos[j] }, "gh_nxt")
 //@        && forall(0, len(m.topics), func(j int) bool { return gh_nxt[j] <= n && eqbytes(dst[gh_off[j]+2:gh_off[j]+2+len(m.topics[j])], m.topics[j]) }, "gh_nxt")
 //@   ensures[C03,C12:pid] err == nil && old(m.dirty) ==> vspecPacketID(m.packetID) != 0
+//@   ensures[C03:clean-id] !old(m.dirty) ==> vspecPacketID(m.packetID) == old(vspecPacketID(m.packetID))
+//@   ensures[C03:id-bytes] (old(vspecPacketID(m.packetID)) != 0 || !old(m.dirty)) && old(len(m.packetID)) == 2 ==> sameslice(m.packetID, old(m.packetID)) && unchanged(m.packetID)
 //@   ensures[C03:keepid] old(vspecPacketID(m.packetID)) != 0 ==> vspecPacketID(m.packetID) == old(vspecPacketID(m.packetID))
 //@   modifies elems(dst, 0, n), m.remlen, m.dirty, m.packetID, elems(m.packetID), gPacketID
 
@@ -786,6 +800,7 @@ func vspecPublishOK(src []byte) bool {
 //@   ensures result == 2+sumlen(m.topics, 0, 2) && 2 <= result && result <= 2+len(m.topics)*65537
 
 //@ func (*UnsubscribeMessage).Len
+//@   ensures[iface] 0 <= result && m.dirty == old(m.dirty)
 //@   requires len(m.topics) <= 30000 && forall(0, len(m.topics), func(j int) bool { return len(m.topics[j]) <= 65535 })
 //@   ensures[C03:len] !old(m.dirty) ==> result == len(m.dbuf) && m.remlen == old(m.remlen) && !m.dirty
 //@   ensures[C03:len] old(m.dirty) && 2+sumlen(m.topics, 0, 2) <= 268435455 ==> result == 1+vspecVarintLen(2+sumlen(m.topics, 0, 2))+2+sumlen(m.topics, 0, 2) && int(m.remlen) == 2+sumlen(m.topics, 0, 2) && m.dirty
@@ -793,6 +808,7 @@ func vspecPublishOK(src []byte) bool {
 
 //@ func (*UnsubscribeMessage).Encode
 //@   results n, err
+//@   ensures[count] 0 <= n && n <= len(dst)
 //@   ghostout gh_off, gh_nxt
 //@   requires len(m.mtypeflags) == 1
 //@   requires len(m.packetID) == 0 || len(m.packetID) == 2
@@ -820,6 +836,8 @@ func vspecPublishOK(src []byte) bool {
 //@        && forall(0, len(m.topics), func(j int) bool { return gh_nxt[j] <= n && vspecBE16(dst, gh_off[j]) == len(m.topics[j]) }, "gh_nxt")
 //@        && forall(0, len(m.topics), func(j int) bool { return gh_nxt[j] <= n && eqbytes(dst[gh_off[j]+2:gh_off[j]+2+len(m.topics[j])], m.topics[j]) }, "gh_nxt")
 //@   ensures[C03,C12:pid] err == nil && old(m.dirty) ==> vspecPacketID(m.packetID) != 0
+//@   ensures[C03:clean-id] !old(m.dirty) ==> vspecPacketID(m.packetID) == old(vspecPacketID(m.packetID))
+//@   ensures[C03:id-bytes] (old(vspecPacketID(m.packetID)) != 0 || !old(m.dirty)) && old(len(m.packetID)) == 2 ==> sameslice(m.packetID, old(m.packetID)) && unchanged(m.packetID)
 //@   ensures[C03:keepid] old(vspecPacketID(m.packetID)) != 0 ==> vspecPacketID(m.packetID) == old(vspecPacketID(m.packetID))
 //@   modifies elems(dst, 0, n), m.remlen, m.dirty, m.packetID, elems(m.packetID), gPacketID
 
@@ -964,6 +982,7 @@ func vspecCWM(src []byte) int { return vspecCW(src) + 2 + vspecBE16(src, vspecCW
 //@   ensures result == vdefConnBody(m) && 0 <= result && result <= 400000
 
 //@ func (*ConnectMessage).Len
+//@   ensures[iface] 0 <= result && m.dirty == old(m.dirty)
 //@   requires vdefConnSizes(m)
 //@   ensures[C03:range] 0 <= result && (old(m.dirty) ==> result <= 400010)
 //@   ensures[C03:len] !old(m.dirty) ==> result == len(m.dbuf) && m.remlen == old(m.remlen) && !m.dirty
@@ -986,6 +1005,7 @@ func vspecCWM(src []byte) int { return vspecCW(src) + 2 + vspecBE16(src, vspecCW
 
 //@ func (*ConnectMessage).Encode
 //@   results n, err
+//@   ensures[count] 0 <= n && n <= len(dst)
 //@   requires len(m.mtypeflags) == 1 && vdefConnSizes(m)
 //@   requires arr(dst) != arr(m.clientID) && arr(dst) != arr(m.willTopic) && arr(dst) != arr(m.willMessage) && arr(dst) != arr(m.username) && arr(dst) != arr(m.password) && arr(dst) != arr(m.mtypeflags)
 //@   ensures[C03:len] err == nil && !old(m.dirty) ==> n == len(old(m.dbuf)) && n <= len(dst) && eqold(dst[:n], m.dbuf)
@@ -1058,17 +1078,20 @@ func vspecCWM(src []byte) int { return vspecCW(src) + 2 + vspecBE16(src, vspecCW
 //
 // Assumed at call sites in other packages (trusted). Every implementation of Message in this code base is a pointer
 // to a struct whose first field is (transitively) `header`, so header fields are reached through the interface value.
-// Len/Encode are specified abstractly here; their per-type behaviour is what C03 proves. Not covered by this frame:
-// Encode writing a freshly assigned packet id in place into an existing 2-byte id buffer that holds 0.
+// Len/Encode are specified abstractly here; their per-type behaviour is what C03 proves. Not covered by this frame
+// (an explicit assumption of the refinement wrappers of PUBLISH/SUBSCRIBE/UNSUBSCRIBE below): Encode writing a freshly
+// assigned packet id in place into an existing 2-byte id buffer that holds 0.
 
 //@ iface Message.Type
 //@   trusted
+//@   flag impls vrefTypeConnect, vrefTypeConnack, vrefTypePublish, vrefTypePuback, vrefTypePubrec, vrefTypePubrel, vrefTypePubcomp, vrefTypeSubscribe, vrefTypeSuback, vrefTypeUnsubscribe, vrefTypeUnsuback, vrefTypePingreq, vrefTypePingresp, vrefTypeDisconnect
 //@   pure
 //@   requires len(ifaceval(self, *header).mtypeflags) == 1
 //@   ensures result == Type(ifaceval(self, *header).mtypeflags[0] >> 4)
 
 //@ iface Message.PacketID
 //@   trusted
+//@   flag impls vrefPacketIDConnect, vrefPacketIDConnack, vrefPacketIDPublish, vrefPacketIDPuback, vrefPacketIDPubrec, vrefPacketIDPubrel, vrefPacketIDPubcomp, vrefPacketIDSubscribe, vrefPacketIDSuback, vrefPacketIDUnsubscribe, vrefPacketIDUnsuback, vrefPacketIDPingreq, vrefPacketIDPingresp, vrefPacketIDDisconnect
 //@   pure
 //@   ensures int(result) == vspecPacketID(ifaceval(self, *header).packetID)
 
@@ -1078,15 +1101,19 @@ func vspecCWM(src []byte) int { return vspecCW(src) + 2 + vspecBE16(src, vspecCW
 
 //@ iface Message.Len
 //@   trusted
-//@   ensures 0 <= result && result <= 268435460
+//@   flag impls vrefLenConnect, vrefLenConnack, vrefLenPublish, vrefLenPuback, vrefLenPubrec, vrefLenPubrel, vrefLenPubcomp, vrefLenSubscribe, vrefLenSuback, vrefLenUnsubscribe, vrefLenUnsuback, vrefLenPingreq, vrefLenPingresp, vrefLenDisconnect
+//@   ensures 0 <= result
+//@   ensures[assumed-size] result <= 268435460
 //@   ensures[keepdirty] ifaceval(self, *header).dirty == old(ifaceval(self, *header).dirty)
 //@   modifies ifaceval(self, *header).remlen, ifaceval(self, *header).dirty
 
 //@ iface Message.Encode
 //@   trusted
+//@   flag impls vrefEncodeConnect, vrefEncodeConnack, vrefEncodePublish, vrefEncodePuback, vrefEncodePubrec, vrefEncodePubrel, vrefEncodePubcomp, vrefEncodeSubscribe, vrefEncodeSuback, vrefEncodeUnsubscribe, vrefEncodeUnsuback, vrefEncodePingreq, vrefEncodePingresp, vrefEncodeDisconnect
 //@   results n, err
 //@   flag args self, dst
-//@   ensures err == nil ==> 0 <= n && n <= len(dst) && n <= 268435460
+//@   ensures err == nil ==> 0 <= n && n <= len(dst)
+//@   ensures[assumed-size] err == nil ==> n <= 268435460
 //@   ensures[ghostdef-lastenc] gfield(0, "encn") == n && gfield(0, "encarr") == arr(dst) && gfield(0, "encoff") == off(dst) && gfield(0, "encAt") == gfield(0, "clock")
 //@   ensures[keepid] old(vspecPacketID(ifaceval(self, *header).packetID)) != 0 || !old(ifaceval(self, *header).dirty) ==> vspecPacketID(ifaceval(self, *header).packetID) == old(vspecPacketID(ifaceval(self, *header).packetID))
 //@   modifies elems(dst), ifaceval(self, *header).remlen, ifaceval(self, *header).dirty, ifaceval(self, *header).packetID, gPacketID, gfield(0, "encn"), gfield(0, "encarr"), gfield(0, "encoff"), gfield(0, "encAt")
@@ -1095,15 +1122,55 @@ func vspecCWM(src []byte) int { return vspecCW(src) + 2 + vspecBE16(src, vspecCW
 // Ghost: which bytes the message was decoded from (C02: what is handed on at PUBREL time is what was stored).
 //@ iface Message.Decode
 //@   trusted
+//@   flag impls vrefDecodeConnect, vrefDecodeConnack, vrefDecodePublish, vrefDecodePuback, vrefDecodePubrec, vrefDecodePubrel, vrefDecodePubcomp, vrefDecodeSubscribe, vrefDecodeSuback, vrefDecodeUnsubscribe, vrefDecodeUnsuback, vrefDecodePingreq, vrefDecodePingresp, vrefDecodeDisconnect
 //@   results n, err
 //@   flag args self, src
-//@   ensures err == nil ==> 0 <= n && n <= len(src) && !ifaceval(self, *header).dirty && len(ifaceval(self, *header).mtypeflags) == 1 && arr(ifaceval(self, *header).mtypeflags) == arr(src)
+//@   ensures err == nil ==> 0 <= n && n <= len(src) && len(ifaceval(self, *header).mtypeflags) == 1 && arr(ifaceval(self, *header).mtypeflags) == arr(src)
+//@   ensures[clean] err == nil && !typeis(self, *DisconnectMessage) && !typeis(self, *PingreqMessage) && !typeis(self, *PingrespMessage) ==> !ifaceval(self, *header).dirty
 //@   ensures[ghostdef-dec] gfield(self, "decarr") == arr(src) && gfield(self, "decoff") == off(src) && gfield(self, "declen") == len(src)
 //@   modifies fields(ifaceval(self, *header)), ifaceval(self, *PublishMessage).topic, ifaceval(self, *PublishMessage).payload, ifaceval(self, *SubscribeMessage).topics, ifaceval(self, *SubscribeMessage).qos, ifaceval(self, *UnsubscribeMessage).topics, ifaceval(self, *SubackMessage).returnCodes, ifaceval(self, *ConnackMessage).sessionPresent, ifaceval(self, *ConnackMessage).returnCode, ifaceval(self, *ConnectMessage).connectFlags, ifaceval(self, *ConnectMessage).version, ifaceval(self, *ConnectMessage).keepAlive, ifaceval(self, *ConnectMessage).protoName, ifaceval(self, *ConnectMessage).clientID, ifaceval(self, *ConnectMessage).willTopic, ifaceval(self, *ConnectMessage).willMessage, ifaceval(self, *ConnectMessage).username, ifaceval(self, *ConnectMessage).password, gfield(self, "decarr"), gfield(self, "decoff"), gfield(self, "declen")
 
 //@ func (*ConnectMessage).SetWillFlag
 //@   ensures[C09:flag] vspecCFWill(m.connectFlags) == v && m.dirty
+//@   ensures[C03:other-flags] m.connectFlags&251 == old(m.connectFlags)&251
 //@   modifies m.connectFlags, m.dirty
+
+// The builder API of CONNECT (C03: what is encoded are the fields as set): every setter stores exactly its argument,
+// keeps the connect-flag bits it is not responsible for, and keeps the flag it is responsible for consistent with the
+// fields (will flag <=> a will topic or will message is present; user name / password flags <=> non-empty values).
+//@ func (*ConnectMessage).SetWillQos
+//@   results err
+//@   ensures[C03:field] (err == nil) == (qos <= 2)
+//@   ensures[C03:field] err == nil ==> vspecCFWillQos(m.connectFlags) == qos && m.connectFlags&231 == old(m.connectFlags)&231 && m.dirty
+//@   ensures[C03:field] err != nil ==> m.connectFlags == old(m.connectFlags) && m.dirty == old(m.dirty)
+//@   modifies m.connectFlags, m.dirty
+//@ func (*ConnectMessage).SetWillRetain
+//@   ensures[C03:field] vspecCFWillRetain(m.connectFlags) == v && m.connectFlags&223 == old(m.connectFlags)&223 && m.dirty
+//@   modifies m.connectFlags, m.dirty
+//@ func (*ConnectMessage).SetUsernameFlag
+//@   ensures[C03:field] vspecCFUsername(m.connectFlags) == v && m.connectFlags&127 == old(m.connectFlags)&127 && m.dirty
+//@   modifies m.connectFlags, m.dirty
+//@ func (*ConnectMessage).SetPasswordFlag
+//@   ensures[C03:field] vspecCFPassword(m.connectFlags) == v && m.connectFlags&191 == old(m.connectFlags)&191 && m.dirty
+//@   modifies m.connectFlags, m.dirty
+//@ func (*ConnectMessage).SetWillTopic
+//@   ensures[C03:field] sameslice(m.willTopic, v) && m.dirty
+//@   ensures[C03:will-flag] vspecCFWill(m.connectFlags) == (len(v) > 0 || (len(m.willMessage) > 0 && old(vspecCFWill(m.connectFlags))))
+//@   ensures[C03:other-flags] m.connectFlags&251 == old(m.connectFlags)&251
+//@   modifies m.willTopic, m.connectFlags, m.dirty
+//@ func (*ConnectMessage).SetWillMessage
+//@   ensures[C03:field] sameslice(m.willMessage, v) && m.dirty
+//@   ensures[C03:will-flag] vspecCFWill(m.connectFlags) == (len(v) > 0 || (len(m.willTopic) > 0 && old(vspecCFWill(m.connectFlags))))
+//@   ensures[C03:other-flags] m.connectFlags&251 == old(m.connectFlags)&251
+//@   modifies m.willMessage, m.connectFlags, m.dirty
+//@ func (*ConnectMessage).SetUsername
+//@   ensures[C03:field] sameslice(m.username, v) && m.dirty
+//@   ensures[C03:user-flag] vspecCFUsername(m.connectFlags) == (len(v) > 0) && m.connectFlags&127 == old(m.connectFlags)&127
+//@   modifies m.username, m.connectFlags, m.dirty
+//@ func (*ConnectMessage).SetPassword
+//@   ensures[C03:field] sameslice(m.password, v) && m.dirty
+//@   ensures[C03:password-flag] vspecCFPassword(m.connectFlags) == (len(v) > 0) && m.connectFlags&191 == old(m.connectFlags)&191
+//@   modifies m.password, m.connectFlags, m.dirty
 
 //@ func (*SubscribeMessage).Topics
 //@   pure
@@ -1181,6 +1248,7 @@ func vspecCWM(src []byte) int { return vspecCW(src) + 2 + vspecBE16(src, vspecCW
 //@   modifies m.returnCode, m.dirty
 //@ func (*ConnectMessage).SetCleanSession
 //@   ensures vspecCFClean(m.connectFlags) == v && m.dirty && vspecCFWill(m.connectFlags) == old(vspecCFWill(m.connectFlags))
+//@   ensures[C03:other-flags] m.connectFlags&253 == old(m.connectFlags)&253
 //@   modifies m.connectFlags, m.dirty
 //@ func (*ConnectMessage).SetClientID
 //@   flag bodyhash 0025a7bc8fb6
@@ -1205,3 +1273,361 @@ func vspecCWM(src []byte) int { return vspecCW(src) + 2 + vspecBE16(src, vspecCW
 //@ func (*SubackMessage).ReturnCodes
 //@   pure
 //@   ensures sameslice(result, m.returnCodes) && cap(result) == cap(m.returnCodes)
+
+// ---------------------------------------------------------------- refinement wrappers (interface contracts of Message)
+// Each wrapper calls one implementation statically and is verified against the interface-level contract (flag like):
+// the postconditions and the frame that callers in other packages assume at a dynamic call follow from the contract
+// that is proved for that implementation. The implementation's own preconditions (a well-formed message object, the
+// stated size bounds, a destination buffer separate from the message's own buffers) are assumed here (flag assumepre)
+// and reported as the assumption under which the interface contract holds.
+func vrefLenConnect(self Message) int { return self.(*ConnectMessage).Len() }
+func vrefEncodeConnect(self Message, dst []byte) (int, error) { return self.(*ConnectMessage).Encode(dst) }
+func vrefDecodeConnect(self Message, src []byte) (int, error) { return self.(*ConnectMessage).Decode(src) }
+func vrefTypeConnect(self Message) Type { return self.(*ConnectMessage).Type() }
+func vrefPacketIDConnect(self Message) uint16 { return self.(*ConnectMessage).PacketID() }
+func vrefLenConnack(self Message) int { return self.(*ConnackMessage).Len() }
+func vrefEncodeConnack(self Message, dst []byte) (int, error) { return self.(*ConnackMessage).Encode(dst) }
+func vrefDecodeConnack(self Message, src []byte) (int, error) { return self.(*ConnackMessage).Decode(src) }
+func vrefTypeConnack(self Message) Type { return self.(*ConnackMessage).Type() }
+func vrefPacketIDConnack(self Message) uint16 { return self.(*ConnackMessage).PacketID() }
+func vrefLenPublish(self Message) int { return self.(*PublishMessage).Len() }
+func vrefEncodePublish(self Message, dst []byte) (int, error) { return self.(*PublishMessage).Encode(dst) }
+func vrefDecodePublish(self Message, src []byte) (int, error) { return self.(*PublishMessage).Decode(src) }
+func vrefTypePublish(self Message) Type { return self.(*PublishMessage).Type() }
+func vrefPacketIDPublish(self Message) uint16 { return self.(*PublishMessage).PacketID() }
+func vrefLenPuback(self Message) int { return self.(*PubackMessage).Len() }
+func vrefEncodePuback(self Message, dst []byte) (int, error) { return self.(*PubackMessage).Encode(dst) }
+func vrefDecodePuback(self Message, src []byte) (int, error) { return self.(*PubackMessage).Decode(src) }
+func vrefTypePuback(self Message) Type { return self.(*PubackMessage).Type() }
+func vrefPacketIDPuback(self Message) uint16 { return self.(*PubackMessage).PacketID() }
+func vrefLenPubrec(self Message) int { return self.(*PubrecMessage).Len() }
+func vrefEncodePubrec(self Message, dst []byte) (int, error) { return self.(*PubrecMessage).Encode(dst) }
+func vrefDecodePubrec(self Message, src []byte) (int, error) { return self.(*PubrecMessage).Decode(src) }
+func vrefTypePubrec(self Message) Type { return self.(*PubrecMessage).Type() }
+func vrefPacketIDPubrec(self Message) uint16 { return self.(*PubrecMessage).PacketID() }
+func vrefLenPubrel(self Message) int { return self.(*PubrelMessage).Len() }
+func vrefEncodePubrel(self Message, dst []byte) (int, error) { return self.(*PubrelMessage).Encode(dst) }
+func vrefDecodePubrel(self Message, src []byte) (int, error) { return self.(*PubrelMessage).Decode(src) }
+func vrefTypePubrel(self Message) Type { return self.(*PubrelMessage).Type() }
+func vrefPacketIDPubrel(self Message) uint16 { return self.(*PubrelMessage).PacketID() }
+func vrefLenPubcomp(self Message) int { return self.(*PubcompMessage).Len() }
+func vrefEncodePubcomp(self Message, dst []byte) (int, error) { return self.(*PubcompMessage).Encode(dst) }
+func vrefDecodePubcomp(self Message, src []byte) (int, error) { return self.(*PubcompMessage).Decode(src) }
+func vrefTypePubcomp(self Message) Type { return self.(*PubcompMessage).Type() }
+func vrefPacketIDPubcomp(self Message) uint16 { return self.(*PubcompMessage).PacketID() }
+func vrefLenSubscribe(self Message) int { return self.(*SubscribeMessage).Len() }
+func vrefEncodeSubscribe(self Message, dst []byte) (int, error) { return self.(*SubscribeMessage).Encode(dst) }
+func vrefDecodeSubscribe(self Message, src []byte) (int, error) { return self.(*SubscribeMessage).Decode(src) }
+func vrefTypeSubscribe(self Message) Type { return self.(*SubscribeMessage).Type() }
+func vrefPacketIDSubscribe(self Message) uint16 { return self.(*SubscribeMessage).PacketID() }
+func vrefLenSuback(self Message) int { return self.(*SubackMessage).Len() }
+func vrefEncodeSuback(self Message, dst []byte) (int, error) { return self.(*SubackMessage).Encode(dst) }
+func vrefDecodeSuback(self Message, src []byte) (int, error) { return self.(*SubackMessage).Decode(src) }
+func vrefTypeSuback(self Message) Type { return self.(*SubackMessage).Type() }
+func vrefPacketIDSuback(self Message) uint16 { return self.(*SubackMessage).PacketID() }
+func vrefLenUnsubscribe(self Message) int { return self.(*UnsubscribeMessage).Len() }
+func vrefEncodeUnsubscribe(self Message, dst []byte) (int, error) { return self.(*UnsubscribeMessage).Encode(dst) }
+func vrefDecodeUnsubscribe(self Message, src []byte) (int, error) { return self.(*UnsubscribeMessage).Decode(src) }
+func vrefTypeUnsubscribe(self Message) Type { return self.(*UnsubscribeMessage).Type() }
+func vrefPacketIDUnsubscribe(self Message) uint16 { return self.(*UnsubscribeMessage).PacketID() }
+func vrefLenUnsuback(self Message) int { return self.(*UnsubackMessage).Len() }
+func vrefEncodeUnsuback(self Message, dst []byte) (int, error) { return self.(*UnsubackMessage).Encode(dst) }
+func vrefDecodeUnsuback(self Message, src []byte) (int, error) { return self.(*UnsubackMessage).Decode(src) }
+func vrefTypeUnsuback(self Message) Type { return self.(*UnsubackMessage).Type() }
+func vrefPacketIDUnsuback(self Message) uint16 { return self.(*UnsubackMessage).PacketID() }
+func vrefLenPingreq(self Message) int { return self.(*PingreqMessage).Len() }
+func vrefEncodePingreq(self Message, dst []byte) (int, error) { return self.(*PingreqMessage).Encode(dst) }
+func vrefDecodePingreq(self Message, src []byte) (int, error) { return self.(*PingreqMessage).Decode(src) }
+func vrefTypePingreq(self Message) Type { return self.(*PingreqMessage).Type() }
+func vrefPacketIDPingreq(self Message) uint16 { return self.(*PingreqMessage).PacketID() }
+func vrefLenPingresp(self Message) int { return self.(*PingrespMessage).Len() }
+func vrefEncodePingresp(self Message, dst []byte) (int, error) { return self.(*PingrespMessage).Encode(dst) }
+func vrefDecodePingresp(self Message, src []byte) (int, error) { return self.(*PingrespMessage).Decode(src) }
+func vrefTypePingresp(self Message) Type { return self.(*PingrespMessage).Type() }
+func vrefPacketIDPingresp(self Message) uint16 { return self.(*PingrespMessage).PacketID() }
+func vrefLenDisconnect(self Message) int { return self.(*DisconnectMessage).Len() }
+func vrefEncodeDisconnect(self Message, dst []byte) (int, error) { return self.(*DisconnectMessage).Encode(dst) }
+func vrefDecodeDisconnect(self Message, src []byte) (int, error) { return self.(*DisconnectMessage).Decode(src) }
+func vrefTypeDisconnect(self Message) Type { return self.(*DisconnectMessage).Type() }
+func vrefPacketIDDisconnect(self Message) uint16 { return self.(*DisconnectMessage).PacketID() }
+
+//@ func vrefLenConnect
+//@   flag like Message.Len
+//@   flag assumepre
+//@   requires typeis(self, *ConnectMessage) && ifaceval(self, *ConnectMessage) != nil
+//@ func vrefEncodeConnect
+//@   flag like Message.Encode
+//@   flag assumepre
+//@   requires typeis(self, *ConnectMessage) && ifaceval(self, *ConnectMessage) != nil && (arr(dst) != arr(ifaceval(self, *header).packetID) || len(ifaceval(self, *header).packetID) != 2)
+//@ func vrefDecodeConnect
+//@   flag like Message.Decode
+//@   flag assumepre
+//@   requires typeis(self, *ConnectMessage) && ifaceval(self, *ConnectMessage) != nil
+//@ func vrefTypeConnect
+//@   flag like Message.Type
+//@   flag assumepre
+//@   requires typeis(self, *ConnectMessage) && ifaceval(self, *ConnectMessage) != nil
+//@ func vrefPacketIDConnect
+//@   flag like Message.PacketID
+//@   flag assumepre
+//@   requires typeis(self, *ConnectMessage) && ifaceval(self, *ConnectMessage) != nil
+//@ func vrefLenConnack
+//@   flag like Message.Len
+//@   flag assumepre
+//@   requires typeis(self, *ConnackMessage) && ifaceval(self, *ConnackMessage) != nil
+//@ func vrefEncodeConnack
+//@   flag like Message.Encode
+//@   flag assumepre
+//@   requires typeis(self, *ConnackMessage) && ifaceval(self, *ConnackMessage) != nil && (arr(dst) != arr(ifaceval(self, *header).packetID) || len(ifaceval(self, *header).packetID) != 2)
+//@ func vrefDecodeConnack
+//@   flag like Message.Decode
+//@   flag assumepre
+//@   requires typeis(self, *ConnackMessage) && ifaceval(self, *ConnackMessage) != nil
+//@ func vrefTypeConnack
+//@   flag like Message.Type
+//@   flag assumepre
+//@   requires typeis(self, *ConnackMessage) && ifaceval(self, *ConnackMessage) != nil
+//@ func vrefPacketIDConnack
+//@   flag like Message.PacketID
+//@   flag assumepre
+//@   requires typeis(self, *ConnackMessage) && ifaceval(self, *ConnackMessage) != nil
+//@ func vrefLenPublish
+//@   flag like Message.Len
+//@   flag assumepre
+//@   requires typeis(self, *PublishMessage) && ifaceval(self, *PublishMessage) != nil
+//@ func vrefEncodePublish
+//@   flag like Message.Encode
+//@   flag assumepre
+//@   requires (vspecPacketID(ifaceval(self, *header).packetID) != 0 || !ifaceval(self, *header).dirty || len(ifaceval(self, *header).packetID) != 2) && typeis(self, *PublishMessage) && ifaceval(self, *PublishMessage) != nil && (arr(dst) != arr(ifaceval(self, *header).packetID) || len(ifaceval(self, *header).packetID) != 2)
+//@ func vrefDecodePublish
+//@   flag like Message.Decode
+//@   flag assumepre
+//@   requires typeis(self, *PublishMessage) && ifaceval(self, *PublishMessage) != nil
+//@ func vrefTypePublish
+//@   flag like Message.Type
+//@   flag assumepre
+//@   requires typeis(self, *PublishMessage) && ifaceval(self, *PublishMessage) != nil
+//@ func vrefPacketIDPublish
+//@   flag like Message.PacketID
+//@   flag assumepre
+//@   requires typeis(self, *PublishMessage) && ifaceval(self, *PublishMessage) != nil
+//@ func vrefLenPuback
+//@   flag like Message.Len
+//@   flag assumepre
+//@   requires typeis(self, *PubackMessage) && ifaceval(self, *PubackMessage) != nil
+//@ func vrefEncodePuback
+//@   flag like Message.Encode
+//@   flag assumepre
+//@   requires typeis(self, *PubackMessage) && ifaceval(self, *PubackMessage) != nil && (arr(dst) != arr(ifaceval(self, *header).packetID) || len(ifaceval(self, *header).packetID) != 2)
+//@ func vrefDecodePuback
+//@   flag like Message.Decode
+//@   flag assumepre
+//@   requires typeis(self, *PubackMessage) && ifaceval(self, *PubackMessage) != nil
+//@ func vrefTypePuback
+//@   flag like Message.Type
+//@   flag assumepre
+//@   requires typeis(self, *PubackMessage) && ifaceval(self, *PubackMessage) != nil
+//@ func vrefPacketIDPuback
+//@   flag like Message.PacketID
+//@   flag assumepre
+//@   requires typeis(self, *PubackMessage) && ifaceval(self, *PubackMessage) != nil
+//@ func vrefLenPubrec
+//@   flag like Message.Len
+//@   flag assumepre
+//@   requires typeis(self, *PubrecMessage) && ifaceval(self, *PubrecMessage) != nil
+//@ func vrefEncodePubrec
+//@   flag like Message.Encode
+//@   flag assumepre
+//@   requires typeis(self, *PubrecMessage) && ifaceval(self, *PubrecMessage) != nil && (arr(dst) != arr(ifaceval(self, *header).packetID) || len(ifaceval(self, *header).packetID) != 2)
+//@ func vrefDecodePubrec
+//@   flag like Message.Decode
+//@   flag assumepre
+//@   requires typeis(self, *PubrecMessage) && ifaceval(self, *PubrecMessage) != nil
+//@ func vrefTypePubrec
+//@   flag like Message.Type
+//@   flag assumepre
+//@   requires typeis(self, *PubrecMessage) && ifaceval(self, *PubrecMessage) != nil
+//@ func vrefPacketIDPubrec
+//@   flag like Message.PacketID
+//@   flag assumepre
+//@   requires typeis(self, *PubrecMessage) && ifaceval(self, *PubrecMessage) != nil
+//@ func vrefLenPubrel
+//@   flag like Message.Len
+//@   flag assumepre
+//@   requires typeis(self, *PubrelMessage) && ifaceval(self, *PubrelMessage) != nil
+//@ func vrefEncodePubrel
+//@   flag like Message.Encode
+//@   flag assumepre
+//@   requires typeis(self, *PubrelMessage) && ifaceval(self, *PubrelMessage) != nil && (arr(dst) != arr(ifaceval(self, *header).packetID) || len(ifaceval(self, *header).packetID) != 2)
+//@ func vrefDecodePubrel
+//@   flag like Message.Decode
+//@   flag assumepre
+//@   requires typeis(self, *PubrelMessage) && ifaceval(self, *PubrelMessage) != nil
+//@ func vrefTypePubrel
+//@   flag like Message.Type
+//@   flag assumepre
+//@   requires typeis(self, *PubrelMessage) && ifaceval(self, *PubrelMessage) != nil
+//@ func vrefPacketIDPubrel
+//@   flag like Message.PacketID
+//@   flag assumepre
+//@   requires typeis(self, *PubrelMessage) && ifaceval(self, *PubrelMessage) != nil
+//@ func vrefLenPubcomp
+//@   flag like Message.Len
+//@   flag assumepre
+//@   requires typeis(self, *PubcompMessage) && ifaceval(self, *PubcompMessage) != nil
+//@ func vrefEncodePubcomp
+//@   flag like Message.Encode
+//@   flag assumepre
+//@   requires typeis(self, *PubcompMessage) && ifaceval(self, *PubcompMessage) != nil && (arr(dst) != arr(ifaceval(self, *header).packetID) || len(ifaceval(self, *header).packetID) != 2)
+//@ func vrefDecodePubcomp
+//@   flag like Message.Decode
+//@   flag assumepre
+//@   requires typeis(self, *PubcompMessage) && ifaceval(self, *PubcompMessage) != nil
+//@ func vrefTypePubcomp
+//@   flag like Message.Type
+//@   flag assumepre
+//@   requires typeis(self, *PubcompMessage) && ifaceval(self, *PubcompMessage) != nil
+//@ func vrefPacketIDPubcomp
+//@   flag like Message.PacketID
+//@   flag assumepre
+//@   requires typeis(self, *PubcompMessage) && ifaceval(self, *PubcompMessage) != nil
+//@ func vrefLenSubscribe
+//@   flag like Message.Len
+//@   flag assumepre
+//@   requires typeis(self, *SubscribeMessage) && ifaceval(self, *SubscribeMessage) != nil
+//@ func vrefEncodeSubscribe
+//@   flag like Message.Encode
+//@   flag assumepre
+//@   requires (vspecPacketID(ifaceval(self, *header).packetID) != 0 || !ifaceval(self, *header).dirty || len(ifaceval(self, *header).packetID) != 2) && typeis(self, *SubscribeMessage) && ifaceval(self, *SubscribeMessage) != nil && (arr(dst) != arr(ifaceval(self, *header).packetID) || len(ifaceval(self, *header).packetID) != 2)
+//@ func vrefDecodeSubscribe
+//@   flag like Message.Decode
+//@   flag assumepre
+//@   requires typeis(self, *SubscribeMessage) && ifaceval(self, *SubscribeMessage) != nil
+//@ func vrefTypeSubscribe
+//@   flag like Message.Type
+//@   flag assumepre
+//@   requires typeis(self, *SubscribeMessage) && ifaceval(self, *SubscribeMessage) != nil
+//@ func vrefPacketIDSubscribe
+//@   flag like Message.PacketID
+//@   flag assumepre
+//@   requires typeis(self, *SubscribeMessage) && ifaceval(self, *SubscribeMessage) != nil
+//@ func vrefLenSuback
+//@   flag like Message.Len
+//@   flag assumepre
+//@   requires typeis(self, *SubackMessage) && ifaceval(self, *SubackMessage) != nil
+//@ func vrefEncodeSuback
+//@   flag like Message.Encode
+//@   flag assumepre
+//@   requires typeis(self, *SubackMessage) && ifaceval(self, *SubackMessage) != nil && (arr(dst) != arr(ifaceval(self, *header).packetID) || len(ifaceval(self, *header).packetID) != 2)
+//@ func vrefDecodeSuback
+//@   flag like Message.Decode
+//@   flag assumepre
+//@   requires typeis(self, *SubackMessage) && ifaceval(self, *SubackMessage) != nil
+//@ func vrefTypeSuback
+//@   flag like Message.Type
+//@   flag assumepre
+//@   requires typeis(self, *SubackMessage) && ifaceval(self, *SubackMessage) != nil
+//@ func vrefPacketIDSuback
+//@   flag like Message.PacketID
+//@   flag assumepre
+//@   requires typeis(self, *SubackMessage) && ifaceval(self, *SubackMessage) != nil
+//@ func vrefLenUnsubscribe
+//@   flag like Message.Len
+//@   flag assumepre
+//@   requires typeis(self, *UnsubscribeMessage) && ifaceval(self, *UnsubscribeMessage) != nil
+//@ func vrefEncodeUnsubscribe
+//@   flag like Message.Encode
+//@   flag assumepre
+//@   requires (vspecPacketID(ifaceval(self, *header).packetID) != 0 || !ifaceval(self, *header).dirty || len(ifaceval(self, *header).packetID) != 2) && typeis(self, *UnsubscribeMessage) && ifaceval(self, *UnsubscribeMessage) != nil && (arr(dst) != arr(ifaceval(self, *header).packetID) || len(ifaceval(self, *header).packetID) != 2)
+//@ func vrefDecodeUnsubscribe
+//@   flag like Message.Decode
+//@   flag assumepre
+//@   requires typeis(self, *UnsubscribeMessage) && ifaceval(self, *UnsubscribeMessage) != nil
+//@ func vrefTypeUnsubscribe
+//@   flag like Message.Type
+//@   flag assumepre
+//@   requires typeis(self, *UnsubscribeMessage) && ifaceval(self, *UnsubscribeMessage) != nil
+//@ func vrefPacketIDUnsubscribe
+//@   flag like Message.PacketID
+//@   flag assumepre
+//@   requires typeis(self, *UnsubscribeMessage) && ifaceval(self, *UnsubscribeMessage) != nil
+//@ func vrefLenUnsuback
+//@   flag like Message.Len
+//@   flag assumepre
+//@   requires typeis(self, *UnsubackMessage) && ifaceval(self, *UnsubackMessage) != nil
+//@ func vrefEncodeUnsuback
+//@   flag like Message.Encode
+//@   flag assumepre
+//@   requires typeis(self, *UnsubackMessage) && ifaceval(self, *UnsubackMessage) != nil && (arr(dst) != arr(ifaceval(self, *header).packetID) || len(ifaceval(self, *header).packetID) != 2)
+//@ func vrefDecodeUnsuback
+//@   flag like Message.Decode
+//@   flag assumepre
+//@   requires typeis(self, *UnsubackMessage) && ifaceval(self, *UnsubackMessage) != nil
+//@ func vrefTypeUnsuback
+//@   flag like Message.Type
+//@   flag assumepre
+//@   requires typeis(self, *UnsubackMessage) && ifaceval(self, *UnsubackMessage) != nil
+//@ func vrefPacketIDUnsuback
+//@   flag like Message.PacketID
+//@   flag assumepre
+//@   requires typeis(self, *UnsubackMessage) && ifaceval(self, *UnsubackMessage) != nil
+//@ func vrefLenPingreq
+//@   flag like Message.Len
+//@   flag assumepre
+//@   requires typeis(self, *PingreqMessage) && ifaceval(self, *PingreqMessage) != nil
+//@ func vrefEncodePingreq
+//@   flag like Message.Encode
+//@   flag assumepre
+//@   requires typeis(self, *PingreqMessage) && ifaceval(self, *PingreqMessage) != nil && (arr(dst) != arr(ifaceval(self, *header).packetID) || len(ifaceval(self, *header).packetID) != 2)
+//@ func vrefDecodePingreq
+//@   flag like Message.Decode
+//@   flag assumepre
+//@   requires typeis(self, *PingreqMessage) && ifaceval(self, *PingreqMessage) != nil
+//@ func vrefTypePingreq
+//@   flag like Message.Type
+//@   flag assumepre
+//@   requires typeis(self, *PingreqMessage) && ifaceval(self, *PingreqMessage) != nil
+//@ func vrefPacketIDPingreq
+//@   flag like Message.PacketID
+//@   flag assumepre
+//@   requires typeis(self, *PingreqMessage) && ifaceval(self, *PingreqMessage) != nil
+//@ func vrefLenPingresp
+//@   flag like Message.Len
+//@   flag assumepre
+//@   requires typeis(self, *PingrespMessage) && ifaceval(self, *PingrespMessage) != nil
+//@ func vrefEncodePingresp
+//@   flag like Message.Encode
+//@   flag assumepre
+//@   requires typeis(self, *PingrespMessage) && ifaceval(self, *PingrespMessage) != nil && (arr(dst) != arr(ifaceval(self, *header).packetID) || len(ifaceval(self, *header).packetID) != 2)
+//@ func vrefDecodePingresp
+//@   flag like Message.Decode
+//@   flag assumepre
+//@   requires typeis(self, *PingrespMessage) && ifaceval(self, *PingrespMessage) != nil
+//@ func vrefTypePingresp
+//@   flag like Message.Type
+//@   flag assumepre
+//@   requires typeis(self, *PingrespMessage) && ifaceval(self, *PingrespMessage) != nil
+//@ func vrefPacketIDPingresp
+//@   flag like Message.PacketID
+//@   flag assumepre
+//@   requires typeis(self, *PingrespMessage) && ifaceval(self, *PingrespMessage) != nil
+//@ func vrefLenDisconnect
+//@   flag like Message.Len
+//@   flag assumepre
+//@   requires typeis(self, *DisconnectMessage) && ifaceval(self, *DisconnectMessage) != nil
+//@ func vrefEncodeDisconnect
+//@   flag like Message.Encode
+//@   flag assumepre
+//@   requires typeis(self, *DisconnectMessage) && ifaceval(self, *DisconnectMessage) != nil && (arr(dst) != arr(ifaceval(self, *header).packetID) || len(ifaceval(self, *header).packetID) != 2)
+//@ func vrefDecodeDisconnect
+//@   flag like Message.Decode
+//@   flag assumepre
+//@   requires typeis(self, *DisconnectMessage) && ifaceval(self, *DisconnectMessage) != nil
+//@ func vrefTypeDisconnect
+//@   flag like Message.Type
+//@   flag assumepre
+//@   requires typeis(self, *DisconnectMessage) && ifaceval(self, *DisconnectMessage) != nil
+//@ func vrefPacketIDDisconnect
+//@   flag like Message.PacketID
+//@   flag assumepre
+//@   requires typeis(self, *DisconnectMessage) && ifaceval(self, *DisconnectMessage) != nil
